@@ -52,6 +52,8 @@ def document():
                     "parameters": [
                         {"name": "api_key", "in": "query", "required": False, "schema": {"type": "string"}},
                         {"name": "n", "in": "query", "required": True, "schema": {"type": "integer"}},
+                        # sensitive only under a user-extended marker list ("zzz")
+                        {"name": "tenantzzzid", "in": "query", "required": False, "schema": {"type": "string"}},
                         {"name": "X-Secret", "in": "header", "required": False, "schema": {"type": "string"}},
                         {"name": "session", "in": "cookie", "required": False, "schema": {"type": "string"}},
                     ],
@@ -146,6 +148,10 @@ def execute(run, seed, scratch):
     if "set_query" in routes:
         secrets["set_query"] = (canary(rng, "qury"), None)
         args += ["--set-query", f"api_key={secrets['set_query'][0]}"]
+    if run["custom"] == "extend":
+        # a secret that only the user's own marker makes sensitive, travelling in the URL
+        secrets["custom_marker_query"] = (canary(rng, "cust"), None)
+        args += ["--set-query", f"tenantzzzid={secrets['custom_marker_query'][0]}"]
     if "set_header" in routes:
         secrets["set_header"] = (canary(rng, "shdr"), None)
         args += ["--set-header", f"X-Secret={secrets['set_header'][0]}"]
